@@ -120,6 +120,35 @@ func mkStr(content string, style int) gtok {
 	return gtok{fmt.Sprintf("string/style%d", style), lit, content, lexer.STRING_LITERAL}
 }
 
+// mkStrBytes spells every byte of content as a \xNN (hex=true) or \NNN octal escape: the value holds arbitrary
+// bytes (also >= 0x80, not valid UTF-8) while the literal itself is plain ASCII.
+func mkStrBytes(content string, hex bool) gtok {
+	var b strings.Builder
+	b.WriteByte('"')
+	for i := 0; i < len(content); i++ {
+		c := content[i]
+		if c >= 0x80 || c < 0x20 || i%2 == 0 {
+			if hex {
+				fmt.Fprintf(&b, `\x%02x`, c)
+			} else {
+				fmt.Fprintf(&b, `\%03o`, c)
+			}
+		} else if c == '"' || c == '\\' {
+			b.WriteByte('\\')
+			b.WriteByte(c)
+		} else {
+			b.WriteByte(c)
+		}
+	}
+	b.WriteByte('"')
+	lit := b.String()
+	v, err := strconv.Unquote(lit)
+	if err != nil || v != content {
+		panic("mkStrBytes: bad literal " + lit)
+	}
+	return gtok{"string/byte-escapes", lit, content, lexer.STRING_LITERAL}
+}
+
 func mkRaw(content string) gtok {
 	return gtok{"rawstring", "`" + content + "`", strings.ReplaceAll(content, "\r", ""), lexer.STRING_LITERAL}
 }
@@ -297,6 +326,9 @@ func c11Vocabulary() []gtok {
 			v = append(v, mkRaw(s))
 		}
 		v = append(v, mkStr(s, i%4))
+	}
+	for _, s := range []string{"\xff", "\xff\xfe\x80", "caf\xc3\xa9", "a\x80b", "\xe6\x97\xa5", "\x7f\x80\x81", "plain"} {
+		v = append(v, mkStrBytes(s, true), mkStrBytes(s, false))
 	}
 	// deterministic order
 	for i := 0; i < len(v); i++ {
